@@ -190,11 +190,15 @@ func (k Keeper) TallyValidityProofs(ctx sdk.Context, duration time.Duration, rep
 			shardProofSubmitted := make(map[int64]map[string]bool)
 			for _, proof := range proofs {
 				for _, index := range proof.Indices {
-					shardProofCount[index]++
 					if shardProofSubmitted[index] == nil {
 						shardProofSubmitted[index] = make(map[string]bool)
 					}
+					// an index repeated inside one proof counts once per validator
+					if shardProofSubmitted[index][proof.Sender] {
+						continue
+					}
 					shardProofSubmitted[index][proof.Sender] = true
+					shardProofCount[index]++
 				}
 			}
 
